@@ -922,22 +922,45 @@ func (v *lsEval) stmt(s *lsState, st ast.Stmt) {
 			s.done = true
 			return
 		}
-		if v.inlineCall(s, call) {
-			return
-		}
 		if v.effectFreeCall(call) {
+			// a helper that moves neither cursor nor marker: all it can do to the line state is to
+			// record the line starts inside a text it is handed (which text: through its parameters)
 			if fn := calleeFunc(v.info, call); fn != nil {
 				for _, fd := range load.AllFuncDecls(v.e.Prog.Pkg(load.PkgDecorator)) {
 					if v.info.Defs[fd.Name] == types.Object(fn) && fd.Body != nil {
+						var bound []types.Object
+						k := 0
+						if fd.Type.Params != nil {
+							for _, f := range fd.Type.Params.List {
+								for _, nm := range f.Names {
+									if k < len(call.Args) && v.isD(call.Args[k]) {
+										if v.dAlias == nil {
+											v.dAlias = map[types.Object]bool{}
+										}
+										if o := v.info.Defs[nm]; o != nil {
+											v.dAlias[o] = true
+											bound = append(bound, o)
+										}
+									}
+									k++
+								}
+							}
+						}
 						ast.Inspect(fd.Body, func(m ast.Node) bool {
 							if loopBody(m) != nil && v.e.isTextLoop(v.info, m) {
-								s.inner++
+								v.textLoop(s, m)
 							}
 							return true
 						})
+						for _, o := range bound {
+							delete(v.dAlias, o)
+						}
 					}
 				}
 			}
+			return
+		}
+		if v.inlineCall(s, call) {
 			return
 		}
 		v.fail("call %s", v.c.ExprStr(call))
